@@ -18,6 +18,7 @@ EXPLANATION = (
     "increment and after every write to loop-carried state on every path; and the checkpoint code "
     "(save, set-up, enabled-test, snapshot property) must not write any solver state.  Does not "
     "decide bit equality across processes."
+    ' Loop-carried state includes solve-carried state: attributes solve() reads before the loop and writes anywhere (what a later call or a resumed solver starts from).'
 )
 RULES = {
     "R9.1": "loop-carried(C) is a subset of Saved(C) and of Restored(C) (exemption: SemiAsyncValueIteration.key, advanced only under shuffle_states)",
